@@ -1,5 +1,5 @@
 """Property -> rules (DESIGN.md section 4)."""
-from .rules import live, walk, exc, graph, graph2, repair
+from .rules import live, walk, exc, graph, graph2, repair, purity
 
 SW, GR, OP, BF = 'dsw.spiderweb.', 'dsw.graphized.', 'dsw.operation.', 'dsw.biofilter.'
 
@@ -49,6 +49,7 @@ def c02(ctx):
     live.r_live(ctx, [SW + 'encode'], floor=2)
     walk.r_walk(ctx, [SW + 'encode'], {SW + 'encode': 2})
     graph2.r_ord_ctor(ctx)
+    purity.r_pure(ctx, [BF + 'LocalBioFilter.valid'], floor=1)
 
 
 def c03(ctx):
@@ -60,6 +61,8 @@ def c03(ctx):
     graph2.r_ord_threshold(ctx)
     graph2.r_fix(ctx)
     graph2.r_arb(ctx)
+    purity.r_pure(ctx, [SW + 'connect_coding_graph', GR + 'remove_useless', GR + 'latter_map_to_accessor'],
+                  only_params=('vertices', 'latter_map'), floor=3)
 
 
 def c11(ctx):
@@ -115,7 +118,16 @@ def c10(ctx):
     exc.r_typed_index(ctx, SW + 'set_vt')
 
 
+def c20(ctx):
+    purity.r_pure(ctx, None, floor=100)
+    purity.r_state(ctx)
+    purity.r_verb(ctx, floor_funcs=10)
+    purity.r_monitor(ctx)
+    exc.r_typed_dispatch(ctx, ctx.p.funcs.keys(), floor=5)
+
+
 PROPERTIES = {
+    'C20': c20,
     'C04': c04,
     'C08': c08,
     'C09': c09,
